@@ -24,7 +24,11 @@ META = dict(
                "user who lacks every required role the answer is 403 and the handler body never runs (nothing read, "
                "no command / method edit / cancel / force forwarded); objects without required roles pass; listings "
                "contain exactly the accessible objects (C32_partial, no_roles_required_open, listing_only_accessible, "
-               "listing_contains_accessible, guarded_endpoint_refuses for any guarded route). The full statement is "
+               "listing_contains_accessible, guarded_endpoint_refuses for any guarded route). Over histories of engine "
+               "events (connect+UodInfo, later UodInfo, run started/stopped/replaced, disconnect, reconnect) the roles "
+               "the routers see are those of the unit's last UodInfo - run events never change them - stored runs and "
+               "recent-engine rows carry them, and the refusal holds after any history (roles_from_last_uodinfo, "
+               "run_events_preserve_roles, stored_run_carries_unit_roles, history_protection). The full statement is "
                "refuted for the unchanged code (C32_counterexample): the two method-editor endpoints (LSP grammar "
                "route and LSP websocket) read unit data without any role check - recorded known findings, replayed "
                "against the real app on every run.",
@@ -648,7 +652,8 @@ def run(ctx: Check) -> int:
         ctx.selftest("requests", "Access", cases[:3000], lambda c: [line("reqmut", c)], mo[:3000])
     # histories through the real message handlers, probed after every step
     hist_roles = ["A", "B"] if ctx.tier == "quick" else ["A", "B", "C"]
-    hists = [{"kind": "history", "steps": sc, "roles": hist_roles} for sc in SCENARIOS]
+    hists = [c for c in load_corpus("C32") if c.get("kind") == "history"]
+    hists += [{"kind": "history", "steps": sc, "roles": hist_roles} for sc in SCENARIOS]
     for k in range(ctx.n(1, 30)):
         hists.append({"kind": "history", "steps": random_history(rng, hist_roles, ctx.n(7, 10), f"h{k}"),
                       "roles": hist_roles})
